@@ -51,7 +51,9 @@ Supply(m) ==
 PickExtra ==
   /\ ph = 1 /\ ph' = 2
   /\ \E oel \in BOOLEAN, ogas \in BOOLEAN, nep \in BOOLEAN, aux \in BOOLEAN, bcal \in BOOLEAN, dm \in {"consistent", "absent", "zero"},
-        chp \in {"no", "bio", "gas", "mixed"}, lsc \in BOOLEAN, oamb \in BOOLEAN :
+        chp \in {"no", "bio", "gas", "mixed"}, lsc \in BOOLEAN, oamb \in BOOLEAN, zel \in BOOLEAN :
+       \* an idle DHW electricity line (all zeros) next to a biomass supply: it is no DHW supply at all
+       /\ (zel => ~mix.el /\ ~mix.hp /\ ~aux /\ (mix.bio # "no" \/ mix.dbio) /\ chp = "no" /\ ~oamb /\ ~bcal)
        \* the DHW heat pump's ambient heat may carry the low-SCOP tag; another service's heat pump may carry it too
        /\ (lsc => mix.hp) /\ (oamb => ~ogas /\ ~bcal /\ chp = "no")
        /\ (aux => mix.el \/ mix.hp)
@@ -61,7 +63,7 @@ PickExtra ==
        /\ (chp = "mixed" => mix.bio = "no" /\ ~mix.dbio /\ ~mix.red)
        \* the biomass boilers may also heat (another service of the same system, with its own declared output)
        /\ (bcal => mix.bio = "out" \/ mix.dbio)
-       /\ extra' = [oel |-> oel, ogas |-> ogas, nep |-> nep, aux |-> aux, bcal |-> bcal, chp |-> chp, lsc |-> lsc, oamb |-> oamb]
+       /\ extra' = [oel |-> oel, ogas |-> ogas, nep |-> nep, aux |-> aux, bcal |-> bcal, chp |-> chp, lsc |-> lsc, oamb |-> oamb, zel |-> zel]
        /\ demand' = dm
        /\ comps' = (IF lsc THEN [i \in 1..Len(Supply(mix)) |-> IF Supply(mix)[i].kind = "USED" /\ Supply(mix)[i].cr = "EAMBIENTE"
                                                                 THEN [Supply(mix)[i] EXCEPT !.cm = LowScopTag] ELSE Supply(mix)[i]]
@@ -72,6 +74,7 @@ PickExtra ==
             \o (IF ogas THEN <<Used(9, "GASNATURAL", "CAL", Const(70))>> ELSE <<>>)
             \o (IF bcal /\ mix.bio = "out" THEN <<Used(6, "BIOMASA", "CAL", Const(30)), Out(6, "CAL", Const(25))>> ELSE <<>>)
             \o (IF bcal /\ mix.dbio THEN <<Used(7, "BIOMASADENSIFICADA", "CAL", Const(20)), Out(7, "CAL", Const(15))>> ELSE <<>>)
+            \o (IF zel THEN <<Used(11, "ELECTRICIDAD", "ACS", Const(0))>> ELSE <<>>)
             \o (IF nep THEN <<Used(0, "ELECTRICIDAD", "NEPB", Const(50))>> ELSE <<>>)
             \o (IF chp = "no" THEN <<>> ELSE <<Prod(10, "EL_COGEN", Const(30))>>)
             \o (IF chp = "bio" THEN <<Used(10, "BIOMASA", "COGEN", Const(80))>> ELSE <<>>)
@@ -120,5 +123,6 @@ ClosedFormPv ==
   (Done /\ Computable /\ mix.pv /\ mix.el /\ ~mix.hp /\ ~mix.ts /\ ~mix.gas /\ ~mix.red /\ mix.bio = "no" /\ ~mix.dbio /\ ~extra.aux /\ ~extra.oel /\ extra.chp = "no" /\ ~extra.oamb) =>
      A(comps, Zero).v = RDiv(R(ISumSet(LAMBDA t : IMin(40, IF t = 1 THEN 30 ELSE 100), 1..n)), R(n * 40))
 
-Emit == Done => PrintT(<<"CASE", ToJson([src |-> [comps |-> comps], demand |-> demand])>>)
+Emit == Done => PrintT(<<"CASE", ToJson([src |-> [comps |-> comps], demand |-> demand,
+                                          rare |-> (extra.zel \/ extra.oamb \/ extra.chp = "mixed")])>>)
 =============================================================================
